@@ -41,8 +41,9 @@ void _ZSt17current_exceptionv(struct cv_exception_ptr *ret) { ret->obj = cv_caug
 void _ZSt17rethrow_exceptionNSt15__exception_ptr13exception_ptrE(struct cv_exception_ptr *ep) {
   __CPROVER_assert(ep->obj != 0, "rethrow_exception(null)");
   cv_exc_pending = 1; cv_exc_obj = ep->obj; cv_exc_tinfo = *(void **)((cv_i8 *)ep->obj - CV_EXC_HDR); }
-void _ZNSt15__exception_ptr13exception_ptr9_M_addrefEv(struct cv_exception_ptr *ep) {}
-void _ZNSt15__exception_ptr13exception_ptr10_M_releaseEv(struct cv_exception_ptr *ep) {}
+unsigned gh_ep_addref, gh_ep_release;   /* reference traffic on exception objects (counted, objects themselves never freed) */
+void _ZNSt15__exception_ptr13exception_ptr9_M_addrefEv(struct cv_exception_ptr *ep) { gh_ep_addref++; }
+void _ZNSt15__exception_ptr13exception_ptr10_M_releaseEv(struct cv_exception_ptr *ep) { gh_ep_release++; }
 
 void cv_llvm_memset_p0i8_i64(cv_i8 *d, cv_i8 v, cv_i64 n, cv_i1 vol) { memset(d, v, n); }
 void cv_llvm_memcpy_p0i8_p0i8_i64(cv_i8 *d, cv_i8 *s, cv_i64 n, cv_i1 vol) { memcpy(d, s, n); }
